@@ -316,3 +316,8 @@ _share("C13", "sum[K1]", "C15")
 # re-checked in this property's own run
 from contracts import C01 as _C01  # noqa: E402,F401
 _share("C01", "dispatch", "C15")
+
+# a burn is integrated only if the worker hands the step's maneuver queue to the dynamics AS the scheduled events (C10 truth_job: propagate is called with scheduled_events = the
+# submission's queue and station_keeping = its station keepers), re-checked in this property's own run
+from contracts import C10 as _C10  # noqa: E402,F401
+_share("C10", "truth_job", "C15")
